@@ -97,4 +97,6 @@ void exec_call(const ExecOp &op, int opi, ExecObs &obs); // one wrapped call on 
 void lib_state_restore();
 void heap_reset();
 void heap_counts(long &allocs, long &bytes);
+void sim_tzset_canonical();
 std::string host_strftime(const World &w, const std::string &fmt, int64_t t);
+std::vector<std::string> host_strftime_all(const World &w, const std::string &fmt, int64_t t);
